@@ -24,11 +24,35 @@ def unprio(x):
 
 def pair(x):
     # anything that is not one of our string tasks is written down as what it is; the spec rejects it
+    if isinstance(x[1], Key):
+        return [unprio(x[0]), x[1].name]
     t = x[1] if isinstance(x[1], str) else 'not-a-task:' + getattr(x[1], '__name__', type(x[1]).__name__)
     return [unprio(x[0]), t]
 
 
+class Key:
+    """a task that compares equal to, but is not, the object used in earlier calls (like a bound method
+    obj.stop taken twice): the queue must treat them as the same item"""
+
+    def __init__(self, name):
+        self.name = name
+
+    def __eq__(self, other):
+        return isinstance(other, Key) and other.name == self.name
+
+    def __hash__(self):
+        return hash(self.name)
+
+
+EQKEYS = False
+
+
+def tk(t):
+    return Key(t) if EQKEYS else t
+
+
 def call(q, e):
+    e = dict(e, t=tk(e['t'])) if 't' in e else e
     n = e['n']
     try:
         if n == 'add':
@@ -59,11 +83,13 @@ def call(q, e):
 def main():
     inp = json.load(open(sys.argv[1]))
     out = []
+    global EQKEYS
     for i, h in zip(inp['ids'], inp['histories']):
+        EQKEYS = bool(inp.get('eqkeys')) and i % 2 == 1
         q = TaskQueue()
         ev = []
         for e in h:
-            ev.append({'n': e['n'], 'p': e.get('p', 0), 't': e.get('t', ''), 'r': call(q, e)})
+            ev.append({'n': e['n'], 'p': e.get('p', 0), 't': e.get('t', ''), 'r': call(q, dict(e))})
         out.append({'id': i, 'ev': ev})
     json.dump({'traces': out}, open(sys.argv[2], 'w'))
 
